@@ -502,6 +502,14 @@ def run(ctx):
         ctx.begin_case(case)
         ctx.observe("mode", "deterministic-first-block(edit between two computations)")
         check_case(ctx, case)
+    # ... one alignment job of the computation finds no usable solver (no precision level: nothing may be topped up silently)
+    for k0 in range(4):
+        cs0 = cases.gen_continuum(rng, n_annot=3, sizes=[3, 4, 3], family="grid", labels=cases.LABELS_SMALL)
+        case = {"continuum": cs0, "dissim": comb0, "n_samples": 6, "precision": None, "sampler": ["statistical", "shuffle_float"][k0 % 2],
+                "mode": ["exact", "soft"][k0 // 2], "ground_truth": None, "np_seed": 71 + k0, "identical": False, "backend": f"onejobfails{3 + k0}"}
+        ctx.begin_case(case)
+        ctx.observe("mode", "deterministic-first-block(one job without a usable solver)")
+        check_case(ctx, case)
     # ... the ground-truth annotators as a generator / set / dict view (an 'iterable of annotators')
     for k0, form in enumerate(["generator", "set", "keys", "reversed"]):
         cs0 = cases.gen_continuum(rng, n_annot=3, sizes=[3, 3, 2], family="grid", labels=cases.LABELS_SMALL)
